@@ -404,6 +404,19 @@ func (sc acctScenario) alphabet(disciplined bool) func(info json.RawMessage, dep
 					}
 					if sc.extras && us == "all" {
 						ops = append(ops, Op{K: "update", S: si, MUs: mkMUs(sc.reqs[0]), Trig: []string{"VOLIMM"}, Seq: seq})
+						// online and offline containers mixed in one unit usage, in both orders (only the online ones are charged)
+						for _, offlineLast := range []bool{true, false} {
+							mus := mkMUs(sc.reqs[0])
+							for i := range mus {
+								off := Cont{Vol: 9, Up: 4, Down: 5, Seq: seq + 50 + mus[i].RG, Offline: true}
+								if offlineLast {
+									mus[i].Conts = append(mus[i].Conts, off)
+								} else {
+									mus[i].Conts = append([]Cont{off}, mus[i].Conts...)
+								}
+							}
+							ops = append(ops, Op{K: "update", S: si, MUs: mus, Seq: seq})
+						}
 					}
 				}
 			}
@@ -468,7 +481,7 @@ func acctScenarios(prop, tier string) []acctScenario {
 		prefix: []Op{mkCreate(0, "smf1"), mkCreate(0, "smf2"), usageOp("update", 0, 1, 100, 0, 301), usageOp("update", 1, 1, 100, 0, 401)},
 		rgs: one, usedSyms: []string{"zero", "all"}, reqs: []int32{100}, twoSess: true})
 	scs = append(scs, acctScenario{name: "2rg-b250", accounts: []Account{{supiA, 1, "250", "2"}, {supiA, 2, "120", "1"}}, prefix: []Op{mkCreate(0, "smf1")}, depth: 3,
-		rgs: [][]int32{{1}, {2}, {1, 2}}, usedSyms: []string{"zero", "all"}, reqs: []int32{100}})
+		rgs: [][]int32{{1}, {2}, {1, 2}}, usedSyms: []string{"zero", "all"}, reqs: []int32{100}, extras: true})
 	if tier == "thorough" {
 		for i := range scs {
 			scs[i].depth += 2
